@@ -1,9 +1,139 @@
-import Ivg.Model.Decoder
+import Ivg.Lemmas.EncoderProto
+import Ivg.Lemmas.Selectors
 import Ivg.Model.Arc
-import Ivg.Model.MdIcons
 import Ivg.Gen.Tie
 import Ivg.Obligations
-/-! # Property C17 — theorems (work in progress: tie obligations only so far) -/
+/-!
+# C17 — the output of an Encoder / Renderer depends only on the calls since its last Reset
+
+Property text: "The output of an Encoder or a Renderer depends only on the calls made since its last
+Reset: reusing an Encoder after Reset, or a Renderer and its rasteriser for another decode, gives
+results identical to fresh objects whatever the earlier history was (including histories that ended
+in an error, mid-path, with high-resolution mode on, with registers, selectors, LOD and smooth-curve
+state dirtied), encoding the same calls twice gives byte-identical output, and calling Bytes twice
+returns equal bytes."
+
+The theorems are about the executable models `Ivg.Enc.Encoder` and `Ivg.Ren.Renderer`.  That the
+models carry ALL the state of the Go structs is the tie `Gen.Tie.encoder_fields_tie`,
+`renderer_fields_tie`, `gradient_fields_tie` (a new field in /repo breaks the build).
+-/
 namespace Ivg.Props.C17
+open Ivg Ivg.Num Ivg.Enc Ivg.Ren Ivg.EncoderProto
+
+/-! ## Encoder -/
+
+/-- `Reset` overwrites the whole Encoder: the state after it does not depend on the state before
+    (error, open path, high-resolution flag, selectors, LOD, buffered drawing operands …). -/
+theorem encoder_reset_clears (vb : ViewBox F32) (pal : Palette) (e₁ e₂ : Encoder) :
+    e₁.step (.reset vb pal) = e₂.step (.reset vb pal) := reset_clears vb pal e₁ e₂
+
+/-- Clause "reusing an Encoder after Reset … gives results identical to fresh objects whatever the
+    earlier history was": for EVERY prior state `e₀` (reachable or not) and every earlier history `A`
+    over the whole API, after `Reset` followed by any uses `B` the Encoder is in exactly the state of a
+    fresh (zero value) Encoder after the same `Reset` and `B`, and everything observed during `B`
+    (selector / LOD reads and every `Bytes()` result, errors included) is identical. -/
+theorem encoder_reset_forgets (e₀ : Encoder) (A : List EncOp) (vb : ViewBox F32) (pal : Palette)
+    (B : List EncOp) :
+    (e₀.runOps (A ++ .call (.reset vb pal) :: B)).1 = (({} : Encoder).runOps (.call (.reset vb pal) :: B)).1 ∧
+    (e₀.runOps (A ++ .call (.reset vb pal) :: B)).2 =
+      (e₀.runOps A).2 ++ (({} : Encoder).runOps (.call (.reset vb pal) :: B)).2 :=
+  EncoderProto.encoder_reset_forgets e₀ A vb pal B
+
+/-- … in particular the final `Bytes()` agree. -/
+theorem encoder_reset_forgets_bytes (e₀ : Encoder) (A : List EncOp) (vb : ViewBox F32) (pal : Palette)
+    (B : List EncOp) :
+    (e₀.runOps (A ++ .call (.reset vb pal) :: B)).1.bytes =
+      (({} : Encoder).runOps (.call (.reset vb pal) :: B)).1.bytes :=
+  EncoderProto.encoder_reset_forgets_bytes e₀ A vb pal B
+
+-- a dirty earlier history: high-resolution mode on, selectors and LOD changed, an open path with
+-- buffered operands, then an error
+set_option maxRecDepth 100000 in
+example :
+    let A : List EncOp := [.setHiRes true, .call (.setCSel 9), .call (.setLOD F32.zero F32.zero),
+      .call (.startPath 0 F32.zero F32.zero), .call (.d2 .L F32.zero F32.zero), .call (.setNSel 3)]
+    let e := (({} : Encoder).runOps A).1
+    e.err = some .stylingOpsUsedInDrawingMode ∧ e.mode = .drawing ∧ e.hiRes = true ∧ e.cSel = 9 ∧
+      e.drawArgs ≠ [] ∧ e.lod1 = F32.zero := by
+  decide +kernel
+
+/-- Clause "calling Bytes twice returns equal bytes": for every state, a second `Bytes()` returns the
+    same result and changes nothing. -/
+theorem bytes_idempotent (e : Encoder) : e.bytes.1.bytes = e.bytes := EncoderProto.bytes_idempotent e
+
+/-- Clause "encoding the same calls twice gives byte-identical output".  In the model this is nothing
+    but `runOps` being a function of the history (no hidden state: `encoder_fields_tie` ties the
+    struct fields, the write-frame theorems of `Gen.Tie` exclude globals); stated for the record, for
+    two Encoders in arbitrary prior states that are Reset first. -/
+theorem deterministic (e₁ e₂ : Encoder) (vb : ViewBox F32) (pal : Palette) (h₁ h₂ : List EncOp) (h : h₁ = h₂) :
+    (e₁.runOps (.call (.reset vb pal) :: h₁)).2 = (e₂.runOps (.call (.reset vb pal) :: h₂)).2 ∧
+    (e₁.runOps (.call (.reset vb pal) :: h₁)).1.bytes = (e₂.runOps (.call (.reset vb pal) :: h₂)).1.bytes := by
+  subst h; exact ⟨rfl, rfl⟩
+
+/-! ## Renderer -/
+
+section renderer
+variable {α β : Type} [Arith α] [Arith β] [Wide α β]
+open RendererReset
+
+/-- Clause "reusing … a Renderer and its rasteriser for another decode gives results identical to
+    fresh objects": two Renderers drawing into the same target rectangle (`r`, what `SetRasterizer`
+    sets), in ANY two states, make exactly the same rasteriser calls from a `Reset` on, for every
+    program `B` in which styling calls and `StartPath` occur outside a path and drawing calls inside
+    one (`WellBracketed`; every stream the decoder delivers and every history the Encoder accepts is
+    of this form, see `respecting_is_wellBracketed`), whatever the arc implementation and number types.
+    `Reset` does not touch `disabled`, `fill` and the rasteriser's pen, so the two states are NOT equal
+    after it; they agree on every other field (`shared`), and the four stale fields are rewritten by
+    `StartPath` before anything reads them. -/
+theorem renderer_reset_forgets (arc : ArcFn α β) (posInf : α) (z₁ z₂ : Renderer α β) (hr : z₁.r = z₂.r)
+    (vb : ViewBox α) (pal : Palette) (B : List (Call α)) (hB : WellBracketed false B) :
+    (z₁.run arc posInf (.reset vb pal :: B)).2 = (z₂.run arc posInf (.reset vb pal :: B)).2 ∧
+    shared (z₁.run arc posInf (.reset vb pal :: B)).1 = shared (z₂.run arc posInf (.reset vb pal :: B)).1 :=
+  RendererReset.renderer_reset_forgets arc posInf z₁ z₂ hr vb pal B hB
+
+/-- "whatever the earlier history was": `A` is ANY call sequence (ending mid-path, registers,
+    selectors, LOD, smooth-curve state dirtied, paths disabled …); no call changes the target. -/
+theorem renderer_reuse (arc : ArcFn α β) (posInf : α) (z : Renderer α β) (A : List (Call α))
+    (vb : ViewBox α) (pal : Palette) (B : List (Call α)) (hB : WellBracketed false B) :
+    ((z.run arc posInf A).1.run arc posInf (.reset vb pal :: B)).2 = (z.run arc posInf (.reset vb pal :: B)).2 :=
+  RendererReset.renderer_reuse arc posInf z A vb pal B hB
+
+/-- every call sequence respecting the Encoder's protocol (C10) is well bracketed -/
+theorem respecting_is_wellBracketed (B : List (Call α))
+    (h : Spec.Protocol.ViolationFree .styling (B.map Spec.Protocol.classifyCall)) : WellBracketed false B :=
+  wellBracketed_of_violationFree B false h
+
+end renderer
+
+-- two different states with the same target
+example : (Renderer.zero : Renderer F32 F64).r =
+    ({ (Renderer.zero : Renderer F32 F64) with disabled := true, cSel := 5, prevSmoothType := 2 }).r := rfl
+example : RendererReset.WellBracketed false
+    [Call.setCSel 1, .startPath 0 F32.zero F32.zero, .d1 .H F32.zero, .d2 .Y F32.zero F32.zero, .closeEnd,
+     .setLOD F32.zero F32.posInf, .startPath 1 F32.zero F32.zero] := by
+  simp [RendererReset.WellBracketed, RendererReset.pathStep]
+-- the restriction is necessary: a drawing call before any StartPath reads the stale `disabled`
+example : ¬ RendererReset.WellBracketed false [Call.d1 .H F32.zero] := by
+  simp [RendererReset.WellBracketed, RendererReset.pathStep]
+
+/-!
+## Not proved in this file
+
+* The rasteriser itself (`golang.org/x/image/vector.Rasterizer`, `raster/vec.Rasterizer`) is outside
+  /repo; the model keeps its pen and the list of calls made on it.  "Identical results" for the
+  Renderer therefore means: identical sequences of rasteriser calls (`RasterOp`s, including the
+  `Reset(w, h)` that `StartPath` issues and the paint passed to `Draw`), not identical pixels.
+* `renderer_reset_forgets` needs `WellBracketed`: for a program that draws before its first
+  `StartPath` the stale `disabled` flag decides whether anything is emitted (the decoder never
+  delivers such a program, and the Encoder rejects it).
+* Go-level buffer reuse (`e.buf[:0]`, `g.Ranges[:0]`, the `stops` scratch array) is not modelled; the
+  model is functional.  The differential suite exercises reuse on the Go side.
+-/
+
 end Ivg.Props.C17
-#obligations C17 [Ivg.Gen.Tie.drawOps_tie, Ivg.Gen.Tie.magic_tie, Ivg.Gen.Tie.errorStrings_tie]
+
+#obligations C17 [
+  Ivg.Props.C17.encoder_reset_clears, Ivg.Props.C17.encoder_reset_forgets,
+  Ivg.Props.C17.encoder_reset_forgets_bytes, Ivg.Props.C17.bytes_idempotent, Ivg.Props.C17.deterministic,
+  Ivg.Props.C17.renderer_reset_forgets, Ivg.Props.C17.renderer_reuse, Ivg.Props.C17.respecting_is_wellBracketed,
+  Ivg.Gen.Tie.encoder_fields_tie, Ivg.Gen.Tie.renderer_fields_tie, Ivg.Gen.Tie.gradient_fields_tie]
